@@ -501,7 +501,7 @@ def check(F, run, tier):
     mc = [nd for nd in fn.nodes if nd["k"] in CALLS and nd.get("fname") == "memcpy"]
     if len(mc) != 1:
         raise AnalysisBroken("expected one memcpy in MemoryWriter::WriteImplementation")
-    dst = fn.term(mc[0]["args"][0])
+    dst = fn.xterm(mc[0]["args"][0])
     want = ("op", "+", ("mem", ("this",), "streamBuffer"), ("mem", ("this",), "offset"))
     if dst == want and fn.term(mc[0]["args"][2]) == ("var", fn.params[1]["n"], fn.params[1]["d"]):
         run.add(ok("R-SEQ", MW + "::WriteImplementation#copy-target", fn.loc(mc[0]["id"]), fn.qn,
